@@ -199,6 +199,17 @@ class C11(Prop):
                     e = ctx.call(again.value.is_empty)
                     ctx.expect(e.ok and e.value is True, "C11.cfg.lang", what="(g & r) & (a|b|c)* on an empty g & r",
                                got=e.describe())
+        if case[0] == "pda" and not want:
+            # an empty intersection used again (the library hands out PDA(), without start state, for some of them)
+            first = ctx.call(left.intersection, right)
+            if first.ok:
+                for what, fn in (("(p & r) & (a|b|c)*", lambda: O.extract_pda(first.value.intersection(Regex("(a|b|c)*"))).lang_final_state(n)),
+                                 ("(p & r).to_empty_stack().to_cfg()", lambda: O.extract_cfg(first.value.to_empty_stack().to_cfg()).lang_upto(n)),
+                                 ("(p & r).to_final_state()", lambda: O.extract_pda(first.value.to_final_state()).lang_final_state(n) and set()),
+                                 ("(p & r).to_cfg()", lambda: first.value.to_cfg() and None)):
+                    again = ctx.call(fn)
+                    if ctx.returns(again, "C11.pda.intersection", what=what + " on an empty p & r"):
+                        ctx.expect(not again.value, "C11.pda.lang", what=what + " on an empty p & r", got=repr(again.value)[:200])
         snap_l2 = (O.extract_cfg(left).prods if case[0] == "cfg" else O.extract_pda(left).trans)
         ok = snap_l == snap_l2 and (snap_r is None or snap_r == O.extract_fa(right).trans)
         ctx.expect(ok, "C11.operands_unchanged")
